@@ -95,7 +95,8 @@ def replay(traj):
 
 def run(check, tier):
     consts = CONSTS[tier]
-    out, r = mc.run(check, "SamplerMC", "smc_" + tier, consts, INV, dedupe=lambda p: str(p))
+    out, r = mc.run(check, "SamplerMC", "smc_" + tier, consts, INV + ["InvPositiveMass"], dedupe=lambda p: str(p),
+                     properties=["WeightGrows", "Terminates"], spec="FairSpec")
     check.extra["sampler_mc_trajectories"] = len(out)
     bad = 0
     for traj in out:
